@@ -1,14 +1,270 @@
 /-
-  ICG.Driver.Env — line protocol of domain `env` (stub: to be filled in by the domain's owner).
+  ICG.Driver.Env — line protocol of domain `env`: the reveal environment, the solvers and the
+  size-aggregated environment (ICG.Model.Env) at `α := Rat`.
+
+  The bound computer and the gap function are parameters of the model.  The driver instantiates them
+  per environment, chosen at `new`:
+    computer  `sa` | `sac` | `sam:<r>`   the model's own `Computer.run` (ICG.Model.Bounds)
+              `ext`                      an *oracle table* fed through the protocol: the bounds the REAL
+                                         computer produced on a fresh real game holding a given knowledge
+    gap       `l1`                       Σ (upper − lower) over all rows, computed here
+              `ext`                      the gap the REAL gap function returned for that knowledge
+  Oracle entries are keyed by the knowledge bit string (`K=` of a dump) of the table the MODEL is in when it
+  calls `compute` / `gap`, so the model — not the harness — decides which knowledge each call sees.
+  A missing entry answers `err:nan` (never produced otherwise in this domain).
+
+  Lines (after the leading `env`):
+    oracle <name> <Kbits> <L|err:kind> <U|-> <gap|err:kind>     register / overwrite one oracle entry
+    oracle-clear <name>
+    new <name> <n> <computer> <gapkind> <budget|none> <initial ids> <full values> <norm values>
+    info <name>                 ik=<sorted ids> ex=<ids in list order> n=<n> steps=<int> budget=<..>
+    reset <name> <full values> <norm values>        obs=<..>            | err:kind
+    step <name> <int> / unstep <name> <int>         obs=.. r=.. done=0|1 c=<id>  | err:kind
+    mask / state / reward / done / steps / dump <name>
+    snap <name>                 mask=.. state=.. r=.. done=.. steps=.. K=.. L=.. U=..
+    solve <name> greedy|greedy_worst|largest        a=<index>           | err:kind
+    random <name> <index>                           1 | 0   (is this a result `RandomSolver` can return?)
+    linsizes / linmask / linstate <name>
+    lincands <name> <k>
+    linreset <name> <full values> <norm values>     obs=<..>            | err:kind
+    linstep <name> <k> <chosen index>               obs=.. r=.. done=.. c=..  | err:kind | illegal-choice
+    drop <name>
 -/
+import ICG.Model.Env
+import ICG.Model.Bounds
 import ICG.Driver.Proto
 namespace ICG.Driver.Env
 open ICG ICG.Proto
 
-abbrev State := Unit
-def init : State := ()
+inductive Comp where
+  | model (c : Computer)
+  | ext
+
+inductive GapKind where
+  | l1 | ext
+
+structure Entry where
+  key : String
+  bounds : Except Err (Array Rat × Array Rat)
+  gap : Except Err Rat
+
+structure Slot where
+  comp : Comp
+  gapk : GapKind
+  env : Env Rat
+
+structure State where
+  envs : List (String × Slot) := []
+  oracles : List (String × List Entry) := []
+
+def init : State := {}
+
+def getSlot? (s : State) (name : String) : Option Slot := (s.envs.find? (·.1 == name)).map (·.2)
+def getOracle (s : State) (name : String) : List Entry :=
+  match s.oracles.find? (·.1 == name) with | some p => p.2 | none => []
+
+def compactEnv (e : Env Rat) : Env Rat := { e with table := e.table.compactT }
+
+def putSlot (s : State) (name : String) (sl : Slot) : State :=
+  { s with envs := (name, { sl with env := compactEnv sl.env }) :: s.envs.filter (·.1 != name) }
+
+def keyOf (t : Table Rat) : String := showBools t.areValuesKnown
+
+def oracleCompute (o : List Entry) (t : Table Rat) : Except Err (Table Rat) :=
+  match o.find? (·.key == keyOf t) with
+  | none => .error .nan
+  | some en =>
+    match en.bounds with
+    | .error err => .error err
+    | .ok (L, U) =>
+      .ok { t with lo := fun c => if h : c < L.size then L[c] else t.lo c,
+                   hi := fun c => if h : c < U.size then U[c] else t.hi c }
+
+def oracleGap (o : List Entry) (t : Table Rat) : Except Err Rat :=
+  match o.find? (·.key == keyOf t) with
+  | none => .error .nan
+  | some en => en.gap
+
+def l1Gap (t : Table Rat) : Except Err Rat :=
+  .ok (listSum ((List.range t.rows).map (fun c => t.hi c - t.lo c)))
+
+def computeOf (o : List Entry) : Comp → Table Rat → Except Err (Table Rat)
+  | .model c => fun t => (c.run t).map Table.compactT
+  | .ext => oracleCompute o
+
+def gapOf (o : List Entry) : GapKind → Table Rat → Except Err Rat
+  | .l1 => l1Gap
+  | .ext => oracleGap o
+
+def parseComp? (s : String) : Option Comp :=
+  if s = "ext" then some .ext
+  else if s = "sa" then some (.model .sa)
+  else if s = "sac" then some (.model .sac)
+  else match s.splitOn ":" with
+    | ["sam", r] => r.toNat?.map (fun r => .model (.sam r))
+    | _ => none
+
+def parseGap? (s : String) : Option GapKind :=
+  if s = "ext" then some .ext else if s = "l1" then some .l1 else none
+
+def parseBudget? (s : String) : Option (Option Nat) :=
+  if s = "none" then some none else s.toNat?.map some
+
+def parseErr? (s : String) : Option Err :=
+  if s = "err:assert" then some .assert else if s = "err:value" then some .value
+  else if s = "err:index" then some .index else if s = "err:attr" then some .attr
+  else if s = "err:nan" then some .nan else if s = "err:other" then some .other else none
+
+def fnOf (l : List Rat) : Nat → Rat :=
+  let a := l.toArray
+  fun c => if h : c < a.size then a[c] else 0
+
+def showOut (o : StepOut Rat) : String :=
+  s!"obs={showRats o.obs} r={showRat o.reward} done={if o.done then "1" else "0"} c={o.chosen}"
+
+def dump (t : Table Rat) : String :=
+  s!"K={showBools t.areValuesKnown} L={showRats t.getLowerBounds} U={showRats t.getUpperBounds}"
+
+/-- run an operation that returns a new environment or an error carrying the environment left behind -/
+def updE {β} (s : State) (name : String) (sl : Slot)
+    (r : Except (Err × Env Rat) (Env Rat × β)) (show_ : β → String) : State × String :=
+  match r with
+  | .ok (e', b) => (putSlot s name { sl with env := e' }, show_ b)
+  | .error (err, e') => (putSlot s name { sl with env := e' }, toString err)
 
 def handle (s : State) : List String → State × String
+  | ["oracle", name, key, l, u, g] =>
+    let bounds? : Option (Except Err (Array Rat × Array Rat)) :=
+      match parseErr? l with
+      | some err => some (.error err)
+      | none => match parseRats? l, parseRats? u with
+        | some L, some U => some (.ok (L.toArray, U.toArray))
+        | _, _ => none
+    let gap? : Option (Except Err Rat) :=
+      match parseErr? g with
+      | some err => some (.error err)
+      | none => (parseRat? g).map .ok
+    match bounds?, gap? with
+    | some b, some g =>
+      let o := getOracle s name
+      let o' := { key := key, bounds := b, gap := g : Entry } :: o.filter (·.key != key)
+      ({ s with oracles := (name, o') :: s.oracles.filter (·.1 != name) }, "ok")
+    | _, _ => (s, "bad-op")
+  | ["oracle-clear", name] => ({ s with oracles := s.oracles.filter (·.1 != name) }, "ok")
+  | ["new", name, n, comp, gapk, budget, initial, full, norm] =>
+    match n.toNat?, parseComp? comp, parseGap? gapk, parseBudget? budget, parseNats? initial,
+          parseRats? full, parseRats? norm with
+    | some n, some comp, some gapk, some budget, some initial, some full, some norm =>
+      let o := getOracle s name
+      match Env.mkEnv (computeOf o comp) n initial budget (fnOf full) (fnOf norm) with
+      | .ok e => (putSlot s name { comp := comp, gapk := gapk, env := e }, "ok")
+      | .error err => ({ s with envs := s.envs.filter (·.1 != name) }, toString err)
+    | _, _, _, _, _, _, _ => (s, "bad-op")
+  | ["info", name] =>
+    match getSlot? s name with
+    | some sl =>
+      let e := sl.env
+      (s, s!"ik={showNats (sortedIds e.initiallyKnown)} ex={showNats e.explorable} n={e.table.n} steps={e.steps} budget={match e.budget with | some b => toString b | none => "none"}")
+    | none => (s, "bad-op")
+  | ["reset", name, full, norm] =>
+    match getSlot? s name, parseRats? full, parseRats? norm with
+    | some sl, some full, some norm =>
+      updE s name sl (Env.reset (computeOf (getOracle s name) sl.comp) sl.env (fnOf full) (fnOf norm))
+        (fun obs => s!"obs={showRats obs}")
+    | _, _, _ => (s, "bad-op")
+  | ["step", name, a] =>
+    match getSlot? s name, a.toInt? with
+    | some sl, some a =>
+      let o := getOracle s name
+      updE s name sl (Env.step (computeOf o sl.comp) (gapOf o sl.gapk) sl.env a) showOut
+    | _, _ => (s, "bad-op")
+  | ["unstep", name, a] =>
+    match getSlot? s name, a.toInt? with
+    | some sl, some a =>
+      let o := getOracle s name
+      updE s name sl (Env.unstep (computeOf o sl.comp) (gapOf o sl.gapk) sl.env a) showOut
+    | _, _ => (s, "bad-op")
+  | ["mask", name] =>
+    match getSlot? s name with
+    | some sl => (s, showBools sl.env.actionMasks)
+    | none => (s, "bad-op")
+  | ["state", name] =>
+    match getSlot? s name with
+    | some sl => (s, showRats sl.env.state)
+    | none => (s, "bad-op")
+  | ["reward", name] =>
+    match getSlot? s name with
+    | some sl =>
+      (s, match sl.env.reward (gapOf (getOracle s name) sl.gapk) with
+          | .ok r => showRat r | .error err => toString err)
+    | none => (s, "bad-op")
+  | ["done", name] =>
+    match getSlot? s name with
+    | some sl => (s, if sl.env.done then "1" else "0")
+    | none => (s, "bad-op")
+  | ["steps", name] =>
+    match getSlot? s name with
+    | some sl => (s, toString sl.env.steps)
+    | none => (s, "bad-op")
+  | ["dump", name] =>
+    match getSlot? s name with
+    | some sl => (s, dump sl.env.table)
+    | none => (s, "bad-op")
+  | ["snap", name] =>
+    match getSlot? s name with
+    | some sl =>
+      let e := sl.env
+      let r := match e.reward (gapOf (getOracle s name) sl.gapk) with
+        | .ok r => showRat r | .error err => toString err
+      (s, s!"mask={showBools e.actionMasks} state={showRats e.state} r={r} done={if e.done then "1" else "0"} steps={e.steps} {dump e.table}")
+    | none => (s, "bad-op")
+  | ["solve", name, which] =>
+    match getSlot? s name with
+    | some sl =>
+      let o := getOracle s name
+      if which = "greedy" || which = "greedy_worst" then
+        updE s name sl (Env.greedy (computeOf o sl.comp) (gapOf o sl.gapk) (which = "greedy_worst") sl.env)
+          (fun a => s!"a={a}")
+      else if which = "largest" then
+        (s, match sl.env.largest with | .ok a => s!"a={a}" | .error err => toString err)
+      else (s, "bad-op")
+    | none => (s, "bad-op")
+  | ["random", name, a] =>
+    match getSlot? s name, a.toNat? with
+    | some sl, some a => (s, if sl.env.randomOk a then "1" else "0")
+    | _, _ => (s, "bad-op")
+  | ["linsizes", name] =>
+    match getSlot? s name with
+    | some sl => (s, showNats sl.env.subsetSizes)
+    | none => (s, "bad-op")
+  | ["linmask", name] =>
+    match getSlot? s name with
+    | some sl => (s, match sl.env.linMask with | .ok l => showBools l | .error err => toString err)
+    | none => (s, "bad-op")
+  | ["linstate", name] =>
+    match getSlot? s name with
+    | some sl => (s, match sl.env.linState with | .ok l => showRats l | .error err => toString err)
+    | none => (s, "bad-op")
+  | ["lincands", name, k] =>
+    match getSlot? s name, k.toNat? with
+    | some sl, some k => (s, showNats (sl.env.linCandidates k))
+    | _, _ => (s, "bad-op")
+  | ["linreset", name, full, norm] =>
+    match getSlot? s name, parseRats? full, parseRats? norm with
+    | some sl, some full, some norm =>
+      updE s name sl (Env.linReset (computeOf (getOracle s name) sl.comp) sl.env (fnOf full) (fnOf norm))
+        (fun obs => s!"obs={showRats obs}")
+    | _, _, _ => (s, "bad-op")
+  | ["linstep", name, k, chosen] =>
+    match getSlot? s name, k.toInt?, chosen.toNat? with
+    | some sl, some k, some chosen =>
+      let o := getOracle s name
+      match Env.linStep (computeOf o sl.comp) (gapOf o sl.gapk) sl.env k chosen with
+      | some r => updE s name sl r showOut
+      | none => (s, "illegal-choice")
+    | _, _, _ => (s, "bad-op")
+  | ["drop", name] =>
+    ({ envs := s.envs.filter (·.1 != name), oracles := s.oracles.filter (·.1 != name) }, "ok")
   | _ => (s, "bad-op")
 
 end ICG.Driver.Env
